@@ -112,8 +112,8 @@ MODELS = [
 ]
 
 
-def run(tier, replay_file=None):
-    chk = Check('C14', tier)
+def setup(pid, tier):
+    chk = Check(pid, tier)
     models = [m for m in MODELS if m[1] is not None]
     ex = chk.load(models + httpmodel.MODELS + BASE_MODELS)
     ex.const_models.append(httpmodel.const_model)
@@ -135,7 +135,27 @@ def run(tier, replay_file=None):
     sel = Opaque('selector')
     fails = z3.Bool('to_vec_fails')
     base = [z3.ULT(n, 1 << 40)]
+    return dict(chk=chk, ex=ex, F_ser=F_ser, F_de=F_de, F_which=F_which, F_new=F_new, F_limit=F_limit, MAXLEN=MAXLEN, n=n, sel=sel, fails=fails, base=base)
 
+
+def run(tier, replay_file=None):
+    C = setup('C14', tier)
+    chk = C['chk']
+    part_tokens(C)
+    part_tokens_in(C)
+    part_whichpage(C)
+    part_results_page(C)
+    part_page_limit(C)
+    witnesses(chk)
+    return chk.finish('one obligation per (function, input shape, execution path, clause)')
+
+
+def unpack(C):
+    return (C[k] for k in ('chk', 'ex', 'F_ser', 'F_de', 'F_which', 'F_new', 'F_limit', 'MAXLEN', 'n', 'sel', 'fails', 'base'))
+
+
+def part_tokens(C):
+    chk, ex, F_ser, F_de, F_which, F_new, F_limit, MAXLEN, n, sel, fails, base = unpack(C)
     # ---- (a)+(b) issue, then accept back
     def h(ex):
         Env.json_len, Env.to_vec_fails = n, fails
@@ -172,6 +192,10 @@ def run(tier, replay_file=None):
         report_token(chk, m, n, f'an issued token is not accepted back as the same selector (got {back})')
     if not n_ok: raise Inconclusive('vacuity: no successful token issue')
 
+
+
+def part_tokens_in(C):
+    chk, ex, F_ser, F_de, F_which, F_new, F_limit, MAXLEN, n, sel, fails, base = unpack(C)
     # ---- (c) arbitrary incoming tokens
     t = TokenIn('tok')
     outs = ex.explore(lambda ex: ex.call_fn(F_de, [t]), t.wf())
@@ -190,6 +214,10 @@ def run(tier, replay_file=None):
             m = chk.prove('token-in/refused-only-if-malformed', pc, wellformed, extra=t.wf(), prefer=[z3.ULE(t.len, 700), z3.URem(t.len, 4) == 0, z3.UGE(t.len, 48)])
             report_token_in(chk, m, t, 'well-formed token refused')
 
+
+
+def part_whichpage(C):
+    chk, ex, F_ser, F_de, F_which, F_new, F_limit, MAXLEN, n, sel, fails, base = unpack(C)
     # ---- (d) page_token alone determines the page
     other = SymStr(z3.Const('other_param', StrSort))
     for shape in ('token', 'token+other', 'other', 'empty'):
@@ -231,8 +259,12 @@ def run(tier, replay_file=None):
                     m = chk.prove(f'whichpage/{shape}/error-only-for-bad-params', pc, fm_ok)
                 if m is not None: report_whichpage(chk, m, shape, tk, f'no page_token ({shape}) but result is {r}')
 
+
+
+def part_results_page(C, kmax=3):
+    chk, ex, F_ser, F_de, F_which, F_new, F_limit, MAXLEN, n, sel, fails, base = unpack(C)
     # ---- (e) ResultsPage::new: token iff non-empty, derived from the LAST item
-    for k_items in range(0, 4):
+    for k_items in range(0, kmax + 1):
         items = [Opaque(f'item{i}') for i in range(k_items)]
         scan = Opaque('scan-params')
         def selector_fn(ex, item, sp):
@@ -267,6 +299,10 @@ def run(tier, replay_file=None):
                           prefer=[z3.ULE(n, 384)])
             if m is not None: report_page(chk, m, k_items, n, f'page of {k_items} items has next_page={np_} items={its}')
 
+
+
+def part_page_limit(C):
+    chk, ex, F_ser, F_de, F_which, F_new, F_limit, MAXLEN, n, sel, fails, base = unpack(C)
     # ---- (f) page_limit
     lim, mx, df = z3.BitVec('client_limit', 32), z3.BitVec('page_max_nitems', 32), z3.BitVec('page_default_nitems', 32)
     for has in (False, True):
@@ -289,9 +325,6 @@ def run(tier, replay_file=None):
             m = chk.prove(f'page_limit/{"client" if has else "default"}', pc, z3.Or(v != want, v == 0), extra=base_l,
                           prefer=[mx == 10000, df == 100])
             report_limit(chk, m, has, lim, mx, df, 'effective page size is not min(limit, max) / default')
-
-    witnesses(chk)
-    return chk.finish('one obligation per (function, input shape, execution path, clause)')
 
 
 def cv(m, t): return m.eval(t, model_completion=True).as_long()
